@@ -5,7 +5,9 @@
    and of `Header.number_macros` (used by Hardcode.calc and `matches` ranges).  Property C16.
    Macro application itself (`Tokenizer.append_token`) is in Model/Layout.v.
    Models the *repaired* code: every #enum member is entered in number_macros with its own value
-   (fixes/C16-enum-number-macros.patch); `parse_header_pinned` keeps the pinned rule. *)
+   (fixes/C16-enum-number-macros.patch; flag pinned_enum keeps the pinned rule) and the tokens of a #define body are
+   laid out again by their connectedness (fixes/C16-macro-in-macro-body-adjacency.patch; flag nest_fix = false keeps
+   the columns of the header line). *)
 From Coq Require Import ZArith String List Bool Ascii.
 From JMCV Require Import Base.Dec Model.Layout.
 Import ListNotations.
@@ -53,10 +55,41 @@ Fixpoint remove_str (x : str) (l : list str) : list str :=
   | y :: r => if str_eqb x y then r else y :: remove_str x r
   end.
 
+(* header_parse.__template_columns (fixes/C16-macro-in-macro-body-adjacency.patch): the tokens of a macro body are
+   laid out again so that a token starts at `col + length` of the previous one EXACTLY when it is connected to it
+   (Token.end: a token that came out of another macro used in the body ends where that macro's NAME ended in the
+   header line).  `prev` = the previous source token and the column right after its re-positioned copy. *)
+Fixpoint norm_body (prev : option (token * Z)) (toks : list token) : list ttok :=
+  match toks with
+  | [] => []
+  | t :: r =>
+      let col := match prev with
+                 | None => t_col t
+                 | Some (p, pend) => if is_connected t p then pend
+                                     else if t_col t <=? pend then pend + 1 else t_col t
+                 end in
+      let tt := mkTT (t_ty t) col (t_str t) in
+      tt :: norm_body (Some (t, col + tt_length tt)) r
+  end.
+
+(* `#enum Class [start] members...`: the optional start.  header_parse:
+       start = 0
+       if is_number(arg_tokens[1].string): start = int(arg_tokens[1].string); del arg_tokens[1]
+   A start WAS GIVEN iff the token after the class name is an integer literal - whatever its value (an explicit
+   `0` is a start, not a member).  A header token never carries a sign (`-5` is the operator `-` and the word `5`),
+   so int() accepts exactly digit strings, and digit groups joined by `_` (declined here: EUnsupported). *)
+Definition enum_args (a1 : token) (rest : list token) : result (Z * list token) :=
+  if digitish (t_str a1) && negb (all_digits (t_str a1)) then Err EUnsupported
+  else if all_digits (t_str a1) then Ok (digits_val (t_str a1) 0, rest)
+  else Ok (0, a1 :: rest).
+
 (* ------------------------------------------------------------------ directives *)
 Section Header.
 Variable pinned_enum : bool.      (* true: number_macros rule of the pinned tree for #enum *)
+Variable nest_fix : bool.         (* true: macro bodies are laid out again (norm_body); false: the tree without that fix *)
 Variable namespace : str.
+
+Definition body_of (toks : list token) : list ttok := if nest_fix then norm_body None toks else map tt_of toks.
 
 (* enum members: Token(KEYWORD, line, 0, str(start)), start += 1; a later key overrides an earlier one *)
 Fixpoint enum_items (cls : str) (items : list token) (start : Z) (first_text : str) (h : hstate) : hstate :=
@@ -89,10 +122,10 @@ Definition directive (h : hstate) (toks : list token) : result hstate :=
               | p :: body =>
                   if ttype_eqb (t_ty p) PAREN_ROUND && is_connected p k then
                     (* #define KEY(a, b) body : recorded with a non-zero arity (not expanded by the model) *)
-                    Ok (mkH (mkMacro (t_str k) 1 (map tt_of body) :: h_mt h) (h_num h) (h_envs h))
+                    Ok (mkH (mkMacro (t_str k) 1 (body_of body) :: h_mt h) (h_num h) (h_envs h))
                   else if digitish (t_str p) && negb (all_digits (t_str p)) then Err EUnsupported
                   else
-                    Ok (mkH (mkMacro (t_str k) 0 (map tt_of rest) :: h_mt h)
+                    Ok (mkH (mkMacro (t_str k) 0 (body_of rest) :: h_mt h)
                             (if all_digits (t_str p) then (t_str k, t_str p) :: h_num h else h_num h)
                             (h_envs h))
               end
@@ -111,14 +144,14 @@ Definition directive (h : hstate) (toks : list token) : result hstate :=
       else if str_eqb (t_str d) (s2l "enum") then
         match args with
         | cls :: a1 :: rest =>
-            if digitish (t_str a1) && negb (all_digits (t_str a1)) then Err EUnsupported
-            else
-              let '(start, items) := if all_digits (t_str a1) then (digits_val (t_str a1) 0, rest)
-                                     else (0, a1 :: rest) in
-              match items with
-              | [] => Err EExpectedSemicolon
-              | f :: _ => Ok (enum_items (t_str cls) items start (t_str f) h)
-              end
+            match enum_args a1 rest with
+            | Err e => Err e
+            | Ok (start, items) =>
+                match items with
+                | [] => Err EExpectedSemicolon
+                | f :: _ => Ok (enum_items (t_str cls) items start (t_str f) h)
+                end
+            end
         | _ => Err EExpectedSemicolon
         end
       else if str_eqb (t_str d) (s2l "bind") then
